@@ -71,7 +71,7 @@ def run(prop, tier, seed, nshards, only_sub, write_evidence=True):
     env.update(PYTHONHASHSEED="0", MPLBACKEND="Agg", OMP_NUM_THREADS="1", OPENBLAS_NUM_THREADS="1",
                MKL_NUM_THREADS="1", VERIF_SEED=str(seed), PYTHONDONTWRITEBYTECODE="1")
     env["PYTHONPATH"] = os.pathsep.join([core.REPO_ROOT, core.VERIF_ROOT, env.get("PYTHONPATH", "")])
-    work = os.path.join(core.VERIF_ROOT, ".work", prop)
+    work = os.path.join(core.VERIF_ROOT, ".work", "%s_%d" % (prop, os.getpid()))   # private to this run
     shutil.rmtree(work, ignore_errors=True)
     os.makedirs(work, exist_ok=True)
     procs = []
